@@ -83,15 +83,18 @@ type Env struct {
 	// StallHandshake, if set, is asked for every accepted connection before any byte is
 	// read; returning true keeps the connection open and silent (no TLS handshake).
 	StallHandshake func() bool
-	Port           int
-	ln             net.Listener
-	mu             sync.Mutex
-	conns          []*Conn
-	handler        Handler
-	leaf           tls.Certificate
-	done           chan struct{}
-	wg             sync.WaitGroup
-	DNSNames       []string // names the resolver was asked for
+	// StallAfterHandshake, if set and true, completes the TLS handshake and then neither
+	// reads nor writes until the environment is closed.
+	StallAfterHandshake func() bool
+	Port                int
+	ln                  net.Listener
+	mu                  sync.Mutex
+	conns               []*Conn
+	handler             Handler
+	leaf                tls.Certificate
+	done                chan struct{}
+	wg                  sync.WaitGroup
+	DNSNames            []string // names the resolver was asked for
 }
 
 func loadCA(dir string) (*x509.Certificate, *ecdsa.PrivateKey, error) {
@@ -196,6 +199,11 @@ func (e *Env) serve(raw net.Conn) {
 			return
 		}
 		rw = tc
+		if e.StallAfterHandshake != nil && e.StallAfterHandshake() {
+			raw.SetDeadline(time.Time{})
+			<-e.done
+			return
+		}
 	} else {
 		rw = &peeked{raw, br}
 	}
